@@ -151,6 +151,10 @@ structure Cfg where
   boolRefuses : Bool → Bool → Bool           -- py__bool__: (safe, _has_builtin_bool(obj))
   boolLookupOrder : List String              -- _has_builtin_bool: names looked up on the type, in order
   builtinMethodTypes : List String           -- _has_builtin_bool: `type(method) is <one of these>`
+  /-- `_has_builtin_bool`: nesting of its two loops. `false`: `for name in <names>` is the outer loop
+  and each name is looked up along the whole MRO; `true`: `for klass in <mro>` is the outer loop and
+  the first class that has any of the names decides -/
+  boolWalkMroOuter : Bool := false
 
 /-- `_shadowed_dict(klass)`: first `__dict__` entry along the MRO that is not the class's own
 getset descriptor (`none` = `_sentinel`) -/
@@ -370,5 +374,79 @@ def pyBool (cfg : Cfg) (ty : Ty) (safe : Bool) : Bool × List Ev :=
 def Ev.isProtocol : Ev → Bool
   | .get _ => false
   | _ => true
+
+/-! ## truth value, at the level of the class dictionaries along `type(obj).__mro__`
+
+`Ty.slot` above is the *result* of the static lookup (one `Slot` per name, the MRO already
+flattened).  The functions below transcribe the walk itself: which class dictionary is asked for
+which name in which order.  That order is what decides for classes with several bases, e.g.
+`class R(list, Mixin)` with `Mixin.__bool__`: `list` provides `__len__` only and comes first. -/
+
+/-- the part of one class `__dict__` that concerns special methods: name ↦ classified raw entry -/
+abbrev ClassSlots := List (String × Slot)
+
+/-- `name in class_dict` / `class_dict[name]` -/
+def ClassSlots.get? (d : ClassSlots) (n : String) : Option Slot :=
+  match d.find? (fun e => e.1 == n) with
+  | some e => some e.2
+  | none => none
+
+/-- `_check_class(type(obj), name)` (= `lookup_special_method_static`, `_PyType_Lookup`): the entry of
+the first class dictionary along the MRO that has the name; `none` = `_sentinel` -/
+def lookupSpecial (mro : List ClassSlots) (n : String) : Option Slot :=
+  mro.findSome? (fun d => d.get? n)
+
+/-- `type(method) is WrapperDescriptorType` (the accepted types are read from the source) -/
+def slotIsBuiltinMethod (cfg : Cfg) : Slot → Bool
+  | .builtin t => cfg.builtinMethodTypes.contains t
+  | _ => false
+
+/-- `_has_builtin_bool`, names in the outer loop: `for name in names: method = lookup(obj, name);
+if method is not _sentinel: return type(method) is ...` ; `return True` -/
+def hasBuiltinBoolNames (cfg : Cfg) (mro : List ClassSlots) : List String → Bool
+  | [] => true
+  | n :: ns =>
+    match lookupSpecial mro n with
+    | some s => slotIsBuiltinMethod cfg s
+    | none => hasBuiltinBoolNames cfg mro ns
+
+/-- `_has_builtin_bool`, classes in the outer loop: `for klass in mro: for name in names:
+if name in klass.__dict__: return type(klass.__dict__[name]) is ...` ; `return True` -/
+def hasBuiltinBoolClasses (cfg : Cfg) (names : List String) : List ClassSlots → Bool
+  | [] => true
+  | d :: ds =>
+    match names.findSome? (fun n => d.get? n) with
+    | some s => slotIsBuiltinMethod cfg s
+    | none => hasBuiltinBoolClasses cfg names ds
+
+/-- `_has_builtin_bool(obj)` on the class dictionaries of `type(obj).__mro__` -/
+def hasBuiltinBoolMro (cfg : Cfg) (mro : List ClassSlots) : Bool :=
+  if cfg.boolWalkMroOuter then hasBuiltinBoolClasses cfg cfg.boolLookupOrder mro
+  else hasBuiltinBoolNames cfg mro cfg.boolLookupOrder
+
+/-- user code run by CPython's `bool(obj)`: `nb_bool` is `__bool__` found *anywhere* along the MRO;
+only when no class has `__bool__` the length slot (`__len__`, again the whole MRO) is used -/
+def boolCallEventsMro (mro : List ClassSlots) : List Ev :=
+  match lookupSpecial mro "__bool__" with
+  | some s => if s.runsUser then [.bool] else []
+  | none =>
+    match lookupSpecial mro "__len__" with
+    | some s => if s.runsUser then [.len] else []
+    | none => []
+
+/-- `DirectObjectAccess.py__bool__(safe=safe)` on the class dictionaries: reached? + user code run -/
+def pyBoolMro (cfg : Cfg) (mro : List ClassSlots) (safe : Bool) : Bool × List Ev :=
+  if cfg.boolRefuses safe (hasBuiltinBoolMro cfg mro) then (false, [])
+  else (true, boolCallEventsMro mro)
+
+/-- every stored entry is a real entry (`.absent` is the lookup result "not found") -/
+def mroStoresEntries (mro : List ClassSlots) : Bool :=
+  mro.all fun d => d.all fun e => e.2 != .absent
+
+/-- the flattened special-method table (`Ty.slot` of a user type) that belongs to an MRO -/
+def flatSlot (mro : List ClassSlots) (n : String) : Slot :=
+  match lookupSpecial mro n with
+  | some s => s
+  | none => .absent
 
 end JediModel.ObjModel
